@@ -769,6 +769,8 @@ class FileHashStore(HashStore):
             # `find_object` which will throw custom exceptions if there is an issue with
             # the reference files, which help us determine the path to proceed with.
             self._synchronize_object_locked_pids(pid)
+            # Tagging is synchronized on the reference locked pids, wait for it as well
+            self._synchronize_referenced_locked_pids(pid)
 
             try:
                 object_info_dict = self._find_object(pid)
@@ -888,6 +890,8 @@ class FileHashStore(HashStore):
                 # Remove all files confirmed for deletion
                 self._delete_marked_files(objects_to_delete)
                 return
+            finally:
+                self._release_reference_locked_pids(pid)
         finally:
             # Release pid
             self._release_object_locked_pids(pid)
